@@ -100,7 +100,9 @@ pub trait Stage: Sync + Send + 'static {
     }
     /// Per-case wall-clock limit (seconds) before the watchdog declares the run inconclusive.
     fn watchdog_secs(&self, tier: Tier) -> u64 {
-        tier.pick(300, 1800)
+        // generous: cases take milliseconds to seconds; on a heavily loaded machine a case of a
+        // system stage was once seen to take > 300 s of wall clock
+        tier.pick(900, 3600)
     }
     fn max_shards(&self) -> usize {
         16
